@@ -181,11 +181,14 @@ def seq_specs(full):
 
 def seq_on_nonseq():
     """Sequence specs written for a field whose value is NOT a sequence (a single child or None): never a match.  String-valued
-    fields are left out: the library treats a str as a sequence of characters and the statement does not say otherwise."""
+    A str-valued field is a sequence of characters (element-wise matching, as the statement says); only verdicts are judged there."""
     out = []
     for f in ("o",):
         out += [(f, seq([], ("tail", None)), None), (f, seq([], ("tail", None)), "whole"), (f, seq([], ("tail", "rest")), None), (f, seq([]), None),
                 (f, seq([(T("*"), None)], ("tail", None)), None), (f, seq([(T("*"), "x")]), None)]
+    # a str property has elements too (its characters): verdicts only - no captures on characters or on the rest of a string
+    out += [("s", seq([(("re", "a"), None)]), None), ("s", seq([(("re", "a"), None), (("re", "b"), None)]), None), ("s", seq([], ("tail", None)), None),
+            ("s", seq([(("re", "a"), None)], ("tail", None)), None), ("s", seq([(("re", "b"), None)], ("tail", None)), None), ("s", seq([]), None)]
     return out
 
 
